@@ -6,6 +6,7 @@ require (
 	github.com/anishathalye/porcupine v1.3.0
 	github.com/kelindar/bitmap v1.4.1
 	github.com/kelindar/column v0.0.0
+	github.com/klauspost/compress v1.16.6
 	github.com/zeebo/xxh3 v1.0.2
 )
 
@@ -14,7 +15,6 @@ require (
 	github.com/kelindar/iostream v1.3.0 // indirect
 	github.com/kelindar/simd v1.1.2 // indirect
 	github.com/kelindar/smutex v1.0.0 // indirect
-	github.com/klauspost/compress v1.16.6 // indirect
 	github.com/klauspost/cpuid/v2 v2.2.5 // indirect
 	github.com/tidwall/btree v1.6.0 // indirect
 )
